@@ -51,7 +51,7 @@ PROPS = {
     'C05': dict(
         oplayer=['P2_lrucache_touch', 'P2_lrucache_get$', 'P2_lrucache_get_entry', 'P2_lrucache_get_lru', 'P2_lrucache_peek_lru', 'P2_lrucache_peek_mru', 'P2_lrucache_get_mut_from_table'],
         comps=['order', 'api_order', 'panic_order'], bodies=['touch_ptr', 'set_head', 'EntryPtr::', 'Entry::unhinge', 'lru_ptr', 'mru_ptr', 'move_to_table'],
-        theorems=['C05_order', 'C05_observers', 'C05_peeks', 'C05_touch_pointer', 'C05_remove_pointer', 'C05_insert_pointer', 'C05_realloc_pointer', 'C05_touch_refines', 'C05_remove_refines', 'C05_lru_is_head', 'C05_pointer_level_iteration', 'C05_order_of_last_access', 'C05_history_pointer_level'],
+        theorems=['C05_order', 'C05_observers', 'C05_peeks', 'C05_touch_pointer', 'C05_remove_pointer', 'C05_insert_pointer', 'C05_realloc_pointer', 'C05_touch_refines', 'C05_remove_refines', 'C05_lru_is_head', 'C05_pointer_level_iteration', 'C05_order_of_last_access', 'C05_history_pointer_level', 'C05_lru_end_is_oldest_access', 'C05_mru_end_is_newest_access'],
         assumptions=['iteration forward and reversed, keys(), values(), peek_lru/peek_mru and Debug are cross-checked against the pointer walk of the hook after every step (flag api_order)'],
     ),
     'C06': dict(
